@@ -18,11 +18,11 @@ extern void *(*hx_rank_mains[])(void *);
 enum { OP_TASK, OP_FLUSH, OP_FLUSHALL, OP_WAIT, OP_N };
 static const char *const opnames[] = {"task", "flush", "flushall", "wait"};
 enum { PR_READERS_OVERLAP, PR_REMOTE_TASK, PR_SAME_TILE_TWICE, PR_NESTED_INSERT, PR_WINDOW_SMALL, PR_MULTIRANK, PR_WRITER_AFTER_READERS,
-       PR_NESTED_WINDOW_STOP, PR_AFTER_WAIT_CHECKED, PR_SHORT_LIMIT_0, PR_COPY_STALL, PR_N };
+       PR_NESTED_WINDOW_STOP, PR_AFTER_WAIT_CHECKED, PR_SHORT_LIMIT_0, PR_COPY_STALL, PR_COPY_STALL_FIRED, PR_N };
 static const char *const probe_names[] = {"two_readers_overlapped", "task_ran_on_nonzero_rank", "task_uses_tile_twice", "task_inserted_from_task",
                                           "window_le_2", "multi_rank_run", "writer_ran_after_2plus_readers",
                                           "nested_insertion_hit_window_stop", "flushed_owner_copy_checked_after_wait", "multi_rank_comm_short_limit_0",
-                                          "multi_rank_copy_stall"};
+                                          "multi_rank_copy_stall", "local_copy_held_up"};
 
 static const char *const SCHEDS[] = {"lfq", "ap", "gd", "ip", "lhq", "ll", "llp", "ltq", "pbq", "rnd", "spq"};
 #define NSCHED 11
@@ -157,6 +157,7 @@ void dtdh_event(int rank, int kind, long a, long b)
     if (kind == 6 && idx_ok) TASK_ADDR[a] = (uintptr_t)b;
     if (kind == 7) after_wait_check(rank, (int)(a >> 8), (int)(a & 0xff), (const int64_t *)(intptr_t)b);
     if (kind == 9) sim_probe(PR_NESTED_WINDOW_STOP);
+    if (kind == 13) sim_probe(PR_COPY_STALL_FIRED);
     if (kind == 99) hx_fail(RES, "init-failed", "parsec_init returned NULL on rank %d", rank);
 }
 
@@ -438,7 +439,10 @@ static void gen(hx_plan_t *p, hx_rng_t *r)
      * every tile through the rendezvous (GET) path */
     hx_set_knob(p, "comm_short", P > 1 && hx_chance(r, 40) ? 0 : -1);
     /* a slow local copy in the communication engine (dtd_driver.c: stalled_reshape), simulated ns */
-    hx_set_knob(p, "copy_stall", P > 1 && hx_chance(r, 40) ? hx_range(r, 2000, 3000000) : 0);
+    hx_set_knob(p, "copy_stall", !(P > 1 && hx_chance(r, 40)) ? 0 : hx_chance(r, 40) ? hx_range(r, 2000, 1000000) : hx_range(r, 1000000, 40000000));
+    /* 0: workers hand local copies (the flush copy-back) to the communication thread as DEP_MEMCPY commands, the
+     * funnelled model; -1: PaRSEC decides from the MPI thread level (simmpi: multiple, the worker copies in place) */
+    hx_set_knob(p, "comm_mt", P > 1 && hx_chance(r, 50) ? 0 : -1);
     int n = (int)hx_range(r, 3, 28);
     int allow_rep = hx_chance(r, 10);   /* one tile in several parameters of a task: rare, own finding class */
     int nmain = 0;                      /* main insertions so far */
@@ -583,6 +587,7 @@ static void run(const hx_plan_t *p, hx_result_t *res)
         long cs = hx_knob(p, "comm_short", -1), st = hx_knob(p, "copy_stall", 0);
         if (cs >= 0) setenv_int("PARSEC_MCA_runtime_comm_short_limit", cs); else unsetenv("PARSEC_MCA_runtime_comm_short_limit");
         if (st > 0) setenv_int("VERIF_DTD_COPY_STALL_NS", st); else unsetenv("VERIF_DTD_COPY_STALL_NS");
+        if (hx_knob(p, "comm_mt", -1) >= 0) setenv_int("PARSEC_MCA_runtime_comm_thread_multiple", hx_knob(p, "comm_mt", -1)); else unsetenv("PARSEC_MCA_runtime_comm_thread_multiple");
         if (SH.nranks > 1 && cs == 0) sim_probe(PR_SHORT_LIMIT_0);
         if (SH.nranks > 1 && st > 0) sim_probe(PR_COPY_STALL);
     }
